@@ -1,6 +1,4 @@
 #!/bin/bash
-# tools/seedsweep.sh [tier]: runs tools/seeded.sh for every seeded change (sequentially); summary on stdout
+# tools/seedsweep.sh [tier] [parallel]: runs tools/seeded.sh for every seeded change; summary on stdout
 cd /verif
-for s in $(ls seeded); do
-  out=$(tools/seeded.sh $s ${1:-quick} 2>&1 | tail -1); echo "$s: $(echo "$out" | cut -c1-160)"
-done
+ls seeded | xargs -P ${2:-1} -I{} sh -c 'out=$(tools/seeded.sh {} '${1:-quick}' 2>&1 | tail -1); echo "{}: $(echo "$out" | cut -c1-160)"'
